@@ -6,8 +6,8 @@ from .. import pipeline as P
 PROP = "C06"
 LEVEL = "exploration"
 BACKENDS = [("inplace", [0]), ("ir", [0, 2]), ("bc", [0, 1, 2, 3]), ("jit", [0, 1, 2, 3])]
-COUNTS_QUICK = {"roam": 120, "uniform": 100, "macro": 40, "affine": 30, "pressure": 10}
-COUNTS_THOROUGH = {"roam": 3000, "uniform": 2000, "macro": 1000, "affine": 500, "pressure": 200}
+COUNTS_QUICK = {"stridescan": 30, "roam": 120, "uniform": 100, "macro": 40, "affine": 30, "pressure": 10}
+COUNTS_THOROUGH = {"stridescan": 600, "roam": 3000, "uniform": 2000, "macro": 1000, "affine": 500, "pressure": 200}
 
 
 def gen_protocol(r):
@@ -18,7 +18,9 @@ def gen_protocol(r):
     ops = []
     for _ in range(r.randint(3, 40)):
         k = r.below(10)
-        if k < 4:
+        if k == 0 and r.below(3) == 0:
+            ops.append("e")       # the window is requested again on a tape that is no longer empty (a context that is reused)
+        elif k < 4:
             d = r.choice([1, -1, 2, -2, 3, -3, 5, -7, 64, -64, 1000, -1000, mx + 1, mn - 1, 70000, -70000])
             ops.append(("mj:%d" if r.below(2) else "m:%d") % d)      # JIT variant / interpreter variant
         elif k < 7:
@@ -34,19 +36,27 @@ def protocol_correspondence(res, rng, driver, hv, n):
     says, every operand cell must test accessible before it is dereferenced, every read must
     return the model's value"""
     hist = [gen_protocol(rng.fork()) for _ in range(n)]
-    mlines = ["rawproto|%d|%d|%s" % (mn, mx, ";".join(["e"] + ops)) for mn, mx, ops in hist]
+    # a third of the histories enter on a tape that already exists (a reused context: a small range was made
+    # accessible before), so that the entry request sticks out of the allocation on both sides
+    pres = []
+    for _ in hist:
+        r0 = rng.fork()
+        pres.append(r0.choice([None, None, (0, 1), (0, 1), (-1, 1), (0, 2), (-2, 3)]))
+    mlines = ["rawproto|%d|%d|%s" % (mn, mx, ";".join((["pre:%d:%d" % pre] if pre else []) + ["e"] + ops)) for (mn, mx, ops), pre in zip(hist, pres)]
     mout = C.run_lines(driver, mlines)
     ilines, plans = [], []
-    for (mn, mx, ops), m in zip(hist, mout):
+    for (mn, mx, ops), m, pre in zip(hist, mout, pres):
         if not m.split(" | ")[-1].startswith("ok") or not m.endswith("inwindow"):
             raise C.CheckFailure("protocol model failed on an in-window history: %s -> %s" % (ops, m[:200]))
         log = m.split(" | ")[0].split()
         li = 0
-        iops = ["a:%d:%d" % (mn, mx + 1)]
-        want = ["-"]
+        iops = (["a:%d:%d" % pre] if pre else []) + ["a:%d:%d" % (mn, mx + 1)]
+        want = ["-"] * len(iops)
         for op in ops:
             f = op.split(":")
-            if f[0] in ("m", "mj"):
+            if f[0] == "e":
+                iops.append("a:%d:%d" % (mn, mx + 1)); want.append("-")
+            elif f[0] in ("m", "mj"):
                 hit = log[li] == "p=1"; li += 1
                 d = int(f[1])
                 probe = mn if d < 0 else mx
@@ -142,7 +152,7 @@ def run(res):
                                           {"case": l, "implementation": r[:300], "canonical": c.canon, "profile": prof, "src": c.src})
     stats["protocol"] = protocol_correspondence(res, rng, driver, hv, 600 if res.tier == "quick" else 20000)
     exc.sort()
-    res.coverage["theorems"] = ["C06_protocol_safe", "C06_jit_slow_path", "C03_mov_template", "C09_tape_refines", "C09_raw_in_bounds", "C11_cells_in_window"]
+    res.coverage["theorems"] = ["C06_protocol_safe", "C06_protocol_safe_reused", "C06_jit_slow_path", "C03_mov_template", "C09_tape_refines", "C09_raw_in_bounds", "C11_cells_in_window"]
     res.coverage.update({
         "evaluations": stats["runs"],
         "distinct_nontrivial": len(set(c.key() for c in H if c.meta["exc"][1] - c.meta["exc"][0] >= 8)),
